@@ -76,7 +76,7 @@ def label_maps(case):
 
 def make_dist(kind, x):
     from msdm.core.distributions import DeterministicDistribution, DictDistribution, UniformDistribution
-    if kind == "det":
+    if kind in ("det", "plain"):
         return DeterministicDistribution(x)
     if kind == "dict":
         return DictDistribution({x: 1.0})
@@ -144,8 +144,11 @@ def build_problem(case):
     else:
         nsd = lambda s, a: make_dist(tk, succ[s][akey(a)][0])
     cls = QuickTabularMDP if case.get("tabular") else QuickMDP
-    mdp = cls(next_state_dist=nsd, reward=lambda s, a, ns: -succ[s][akey(a)][1], actions=lambda s: mk(acts[s]),
-              initial_state_dist=make_dist(ik, start), is_absorbing=lambda s: goal[s])
+    # "plain" = the deterministic constructor spelling (next_state= / initial_state=) instead of a distribution
+    kw = {"next_state": (lambda s, a: succ[s][akey(a)][0])} if tk == "plain" else {"next_state_dist": nsd}
+    kw.update({"initial_state": start} if ik == "plain" else {"initial_state_dist": make_dist(ik, start)})
+    mdp = cls(reward=lambda s, a, ns: -succ[s][akey(a)][1], actions=lambda s: mk(acts[s]),
+              is_absorbing=lambda s: goal[s], **kw)
     if case.get("tabular"):               # base object already USED (cached views built) before it is wrapped
         mdp.reachable_states(), mdp.state_list, mdp.action_list
         try:                              # (the matrices raise KeyError when an absorbing state has an action leading outside
@@ -274,21 +277,35 @@ def nested_heuristic(case):
     return hv, seen
 
 
-def make_planners(case):
-    from msdm.algorithms.search import AStarSearch, BreadthFirstSearch
-    _, idx, _, _ = label_maps(case)
+def hv_list(case):
+    """heuristic COST per state index, as the numbers handed to msdm"""
     num = float if case.get("num_type") == "float32" else num_of(case)      # float32 is for the rewards only
     p_, q_ = case.get("h_scale", [1, 1])
-    if case.get("scenario") == "nested_h":
+    if [p_, q_] == [1, 1]:
+        return [float("inf") if x == "inf" else num(x) for x in case["h"]]
+    k = p_ / q_                    # "scaled exact": k * h with the float k = p/q, as a user would write it
+    return [float("inf") if x == "inf" else k * x for x in case["h"]]
+
+
+def fill_table(table, case):
+    """bring the caller's heuristic table (label -> cost) up to date IN PLACE for this problem"""
+    L = label_maps(case)[0]
+    table.clear()
+    table.update({L[i]: v for i, v in enumerate(hv_list(case))})
+
+
+def make_planners(case, table=None):
+    from msdm.algorithms.search import AStarSearch, BreadthFirstSearch
+    _, idx, _, _ = label_maps(case)
+    num = float if case.get("num_type") == "float32" else num_of(case)
+    if table is not None:
+        hfun, seen = (lambda s: -table[s]), None        # reads the caller's table at call time
+    elif case.get("scenario") == "nested_h":
         hfun, seen = nested_heuristic(case)
     elif case["heuristic"] == "zero":
         hfun, seen = (lambda s: -num(0)), None          # label-independent: usable on a second problem
     else:
-        if [p_, q_] == [1, 1]:
-            hv = [float("inf") if x == "inf" else num(x) for x in case["h"]]     # heuristic COST per state
-        else:                      # "scaled exact": k * h with the float k = p/q, as a user would write it
-            k = p_ / q_
-            hv = [float("inf") if x == "inf" else k * x for x in case["h"]]
+        hv = hv_list(case)
         hfun, seen = (lambda s: -hv[idx[s]]), None
     kw = {} if case.get("assert_monotone", True) else {"assert_monotone_heuristic": False}
     a = AStarSearch(heuristic_value=hfun, seed=case["seed"], randomize_action_order=bool(case["shuffle"]),
@@ -318,9 +335,14 @@ def one(case, pl):
         other = case["other"]
         w1 = DSP.from_mdp(build_problem(case))
         w2 = DSP.from_mdp(build_problem(other))
-        planners = make_planners(case) if case.get("shared_planner") else None     # one planner object, two problems
+        table = {} if case.get("planner_table") else None          # the planner's heuristic reads this table
+        planners = make_planners(case, table) if case.get("shared_planner") else None     # one planner object, two problems
+        if table is not None:
+            fill_table(table, case)
         raw1 = plan_both(case, lambda: w1, planners)
         early = None if case.get("late_policy") else finish_both(raw1, case)
+        if table is not None:
+            fill_table(table, other)
         res_other = finish_both(plan_both(other, lambda: w2, planners), other)
         res = finish_both(raw1, case)
         if early is not None:
@@ -332,18 +354,27 @@ def one(case, pl):
         import copy
         edited = case["edited"]
         m = build_editable(case)
-        res = finish_both(plan_both(case, lambda: m), case)
+        # planner_table: ONE A* and ONE BFS object for every plan of this history; the A* heuristic reads a table that the
+        # caller edits in place together with the problem
+        table = {} if case.get("planner_table") else None
+        shared = make_planners(case, table) if table is not None else None
+
+        def plan(c, prob):
+            if table is not None:
+                fill_table(table, c)
+            return finish_both(plan_both(c, lambda: prob, shared), c)
+        res = plan(case, m)
         if case.get("edit_mode") == "copy":      # shallow copy of an already planned object, then edit the copy
             c = copy.copy(m)
             c.retarget(edited)
-            res["edited"] = finish_both(plan_both(edited, lambda: c), edited)
-            res["again"] = finish_both(plan_both(case, lambda: m), case)        # the original is unchanged
+            res["edited"] = plan(edited, c)
+            res["again"] = plan(case, m)        # the original is unchanged
         else:
             m.load(edited)
-            res["edited"] = finish_both(plan_both(edited, lambda: m), edited)
+            res["edited"] = plan(edited, m)
             if case.get("edit_mode") == "there_and_back":
                 m.load(case)
-                res["again"] = finish_both(plan_both(case, lambda: m), case)
+                res["again"] = plan(case, m)
     else:
         prob = build_problem(case)               # one problem object for both searches
         res = finish_both(plan_both(case, lambda: prob), case)
